@@ -76,7 +76,12 @@ fn main() {
         for &t in &ts {
             let (acc, vel, pos) = match (mp.get_acceleration(Time(t)), mp.get_velocity(Time(t)), mp.get_position(Time(t))) {
                 (Some(a), Some(v), Some(p)) => (a.value, v.value, p.value),
-                _ => { bad = true; break; } // presence is C06's
+                (a, v, p) => {
+                    // presence at every instant is C06's clause, but "equals the start velocity / position at t = 0" and the
+                    // per-time clauses of this property cannot hold for a value that is not there
+                    rep.violation("C07/absent-during-move", "profiles", case, format!("t={} (0 <= t < t3): acceleration {:?} velocity {:?} position {:?}; t1..t3={:?} case={:?}", t, a.map(|q| q.value), v.map(|q| q.value), p.map(|q| q.value), b, c));
+                    bad = true; break;
+                }
             };
             let ts_ = t as f64 / 1e9;
             let (ea, ev, ep, vm, pm) = r.at(ts_);
